@@ -5,8 +5,10 @@ Clauses decided (DESIGN.md section 3, C15):
   (b) Breit-Wigner family kernels == documented formula, per L            (c15_kernels, E6)
   (c) symbolic denominators are reciprocals of the numeric kernels        (c15_kernels, E6)
   (d) trivial models one / x                                              (c15_kernels, E6)
+  (e) registered particle models wire parameters/keys/options as documented (c15_models, E6)
 """
 from .c15_kernels import check_kernels
+from .c15_models import check_models
 from .c15_tables import check_bw_tables
 
 LEVEL = "proof"
@@ -18,6 +20,7 @@ def run(repo, chk, tier):
     check_bw_tables(repo, chk, tier)
     try:
         check_kernels(repo, chk, tier)
+        check_models(repo, chk, tier)
     except AnalysisError as e:
         if not chk.violations:
             raise
